@@ -143,6 +143,28 @@ variable (s : State) (env : Env) (cs : List Card)
 @[simp] theorem produceCards_runoutCount : (s.produceCards cs).runoutCount = s.runoutCount := rfl
 end fields
 
+@[simp] theorem chipView_dealSetup (cfg : Config) (env : Env) (s : State) (st : Street) :
+    chipView (dealSetup cfg env s st) = chipView s := by
+  unfold dealSetup
+  simp only []
+  split <;> rfl
+
+section dealSetupFields
+variable (cfg : Config) (env : Env) (s : State) (st : Street)
+@[simp] theorem dealSetup_stacks : (dealSetup cfg env s st).stacks = s.stacks :=
+  congrArg (·.1) (chipView_dealSetup cfg env s st)
+@[simp] theorem dealSetup_bets : (dealSetup cfg env s st).bets = s.bets :=
+  congrArg (·.2.1) (chipView_dealSetup cfg env s st)
+@[simp] theorem dealSetup_payoffs : (dealSetup cfg env s st).payoffs = s.payoffs :=
+  congrArg (·.2.2.1) (chipView_dealSetup cfg env s st)
+@[simp] theorem dealSetup_pots : (dealSetup cfg env s st).pots_ = s.pots_ :=
+  congrArg (·.2.2.2.1) (chipView_dealSetup cfg env s st)
+@[simp] theorem dealSetup_subPots : (dealSetup cfg env s st).subPots = s.subPots :=
+  congrArg (·.2.2.2.2.1) (chipView_dealSetup cfg env s st)
+@[simp] theorem dealSetup_runoutCount : (dealSetup cfg env s st).runoutCount = s.runoutCount :=
+  congrArg (·.2.2.2.2.2) (chipView_dealSetup cfg env s st)
+end dealSetupFields
+
 theorem chipView_muckHoleCards {s s' : State} {i : Nat} (h : s.muckHoleCards i = .ok s') :
     chipView s' = chipView s := by
   unfold State.muckHoleCards at h
